@@ -526,6 +526,20 @@ func (m *Machine) globalModel(e *Exec, g *ssa.Global) (Value, bool) {
 			e.deadlineErr = &v
 		}
 		return *e.deadlineErr, true
+	case "time.localLoc":
+		return zero(deref(g.Type())), true
+	case "time.utcLoc":
+		v := zero(deref(g.Type())).(Struct)
+		v[0] = litString("UTC")
+		return v, true
+	case "time.Local":
+		if lg, ok := g.Pkg.Members["localLoc"].(*ssa.Global); ok {
+			return e.global(lg), true
+		}
+	case "time.UTC":
+		if ug, ok := g.Pkg.Members["utcLoc"].(*ssa.Global); ok {
+			return e.global(ug), true
+		}
 	case "strconv.ErrRange":
 		return e.newErrorString("value out of range"), true
 	case "strconv.ErrSyntax":
